@@ -92,7 +92,7 @@ PROPS = {
                   ("GL", 9, has(":GL1:", ":GL2:", "ite_helper:GL4", ":GL5:", ":GL8:", "ite_helper:GL11")),
                   ("PM", 2, has("::set:", "assignment_iter")),
                   ("SH", 6, has("RobddBuilder", "BottomUpBuilder<repr::bdd::BddPtr> for T>::var")),
-                  ("MK", 1, has("::bdd::"))],
+                  ("MK", 1, has("::bdd::")), ("WC", 4, has("bdd-node"))],
         "explanation": "Six structural clauses of BDD operation correctness. (e) the standard-triple normalisation Ite::new "
                        "preserves ite(f,g,h) on every path for every truth assignment (ST: exhaustive abstract interpretation over "
                        "the 8-value pointer domain); (f) the Shannon node is node(top, ite of false-cofactors, ite of "
@@ -103,7 +103,7 @@ PROPS = {
                        "only new+alloc (IM2, IM3), node fields Freeze except the two private cells (HE); (c) derived operators "
                        "and/iff/xor/exists/negate/or/compose evaluate to their names' truth tables (DT); (d) list operations "
                        "are seeded with the neutral element (FS). Not decided: Shannon expansion, the standard-triple "
-                       "rewriting in Ite::new, order handling — most of the property. Added: the apply cache cannot change a result (Lru get/insert/grow keep key, value and hash together, the BDD ite cache uses one key and one hash: GL1, GL2, GL4, GL5); label numbering never decides an ordering question (VO label-order). Added after the fourth seeding round: every function that looks a pointer up in a pointer-valued memo, returns the hit and inserts into the same memo applies the argument's sign the same way going in and coming out (MK1: hit returned as neg^r(X) means stored V and returned R on a miss satisfy R = neg^r(V), for each sign), and a memo entry shared by a node and its complement without sign adjustment is only allowed for a function that never returns its argument itself (MK2). Today's only instance is cond_with_alloc; the rule ranges over all functions, so a memo added to another traversal is checked too.",
+                       "rewriting in Ite::new, order handling — most of the property. Added: the apply cache cannot change a result (Lru get/insert/grow keep key, value and hash together, the BDD ite cache uses one key and one hash: GL1, GL2, GL4, GL5); label numbering never decides an ordering question (VO label-order). Added after the fourth seeding round: every function that looks a pointer up in a pointer-valued memo, returns the hit and inserts into the same memo applies the argument's sign the same way going in and coming out (MK1: hit returned as neg^r(X) means stored V and returned R on a miss satisfy R = neg^r(V), for each sign), and a memo entry shared by a node and its complement without sign adjustment is only allowed for a function that never returns its argument itself (MK2). Today's only instance is cond_with_alloc; the rule ranges over all functions, so a memo added to another traversal is checked too. Added: WC bdd-node — only var, ite_helper, cond_with_alloc and smooth_helper hand nodes to the BDD unique table: they are what establishes the variable order of an interned node, and a mis-ordered node makes later conditioning/quantification wrong.",
     },
     "C03": {
         "level": "other",
@@ -112,14 +112,14 @@ PROPS = {
                   ("ST", 2, None), ("SH", 1, has("SddPtr> for T>::condition")), ("SA", 10, None), ("VX", 11, None),
                   ("VO", 1, vo_sel("::sdd::", only_label_order=True)),
                   ("GL", 12, has(":GL1:", ":GL2:", "SddPtr> for T>::ite:GL4", "SddPtr> for T>::and:GL4", "AllIteTable:GL8", ":GL10:", "SddPtr> for T>::ite:GL11", "SddPtr> for T>::and:GL11")),
-                  ("BT", 9, None), ("MK", 0, has("::sdd::")), ("WC", 4, has("sdd-"))],
+                  ("BT", 9, None), ("MK", 0, has("::sdd::")), ("WC", 4, has("sdd-")), ("WC", 6, has("sdd-node"))],
         "explanation": "Complement coherence of every place the SDD code touches subs/children of a possibly complemented node "
                        "(and_sub_desc, and_prime_desc, and_cartesian, condition, SddPtr::{low,high,neg,is_neg}): operands of "
                        "and/ite/..., elements of result nodes and traversal recursion denote the same thing for a regular and "
                        "a complemented pointer; primes are never sign-dependent (CP). Derived operators ite/iff/xor/exists/"
                        "negate/or/compose match their truth tables (DT); the standard-triple normalisation used by the SDD ite preserves "
                        "ite(f,g,h) (ST); a literal conditioned on its own variable is True iff polarity == value (SH). History immunity (IM, HE). Not decided: the vtree "
-                       "case analysis of and, cartesian-product shortcuts, conditioning's element recursion. Added: no ordering comparison of variable labels in SDD code - vtree positions decide (VO label-order); every implementor's compose satisfies the documented definition with g allowed to mention the variable (DT on overrides); the SDD ite/and caches use one key and one hash and the Lru keeps key/value/hash together (GL1, GL2, GL4). Added after the fourth seeding round: every function that looks a pointer up in a pointer-valued memo, returns the hit and inserts into the same memo applies the argument's sign the same way going in and coming out (MK1: hit returned as neg^r(X) means stored V and returned R on a miss satisfy R = neg^r(V), for each sign), and a memo entry shared by a node and its complement without sign adjustment is only allowed for a function that never returns its argument itself (MK2). There is no such memo in the SDD code today (floor 0); the rule ranges over all functions, so one that is added is checked. Ownership (WC sdd caches): the apply cache is keyed by the operands of a conjunction and the ite cache by a standard triple; neither key names the operation, so app_cache_* is used by `and` only and ite_cache_* by `ite` only (or by private helpers of those). A second operation filed under such keys is reported.",
+                       "case analysis of and, cartesian-product shortcuts, conditioning's element recursion. Added: no ordering comparison of variable labels in SDD code - vtree positions decide (VO label-order); every implementor's compose satisfies the documented definition with g allowed to mention the variable (DT on overrides); the SDD ite/and caches use one key and one hash and the Lru keeps key/value/hash together (GL1, GL2, GL4). Added after the fourth seeding round: every function that looks a pointer up in a pointer-valued memo, returns the hit and inserts into the same memo applies the argument's sign the same way going in and coming out (MK1: hit returned as neg^r(X) means stored V and returned R on a miss satisfy R = neg^r(V), for each sign), and a memo entry shared by a node and its complement without sign adjustment is only allowed for a function that never returns its argument itself (MK2). There is no such memo in the SDD code today (floor 0); the rule ranges over all functions, so one that is added is checked. Ownership (WC sdd caches): the apply cache is keyed by the operands of a conjunction and the ite cache by a standard triple; neither key names the operation, so app_cache_* is used by `and` only and ite_cache_* by `ite` only (or by private helpers of those). A second operation filed under such keys is reported. Added: WC sdd-node — SDD decision nodes are built (unique_bdd / unique_or / canonicalize) only by the four and_* cases and condition, or by private helpers called only from those: they are what establishes that primes live under the left and subs under the right child of the node's vtree position; the constructors intern whatever they are handed.",
     },
     "C06": {
         "level": "other",
@@ -200,12 +200,12 @@ PROPS = {
     "C04": {
         "level": "other",
         "rules": [("RN", 8, has("RN3")), ("HE", 7, has(*SDD_T)), ("GL", 2, has("GL3")), ("TS", 3, has("TS-OCC")),
-                  ("IM", 22, has("IM4")), ("RH", 14, None), ("CM", 8, None)],
+                  ("IM", 22, has("IM4")), ("RH", 14, None), ("CM", 8, None), ("WC", 6, has("sdd-node"))],
         "explanation": "Order of SDD canonicalisation steps on every path to the unique tables (trim, compress, trim, sort, "
                        "sign-normalise, intern: RN3), Hash/Eq agreement of BinarySDD/SddOr/SddAnd and identity Hash/Eq of "
                        "SddPtr (HE), the shared unique-table rules (GL3, TS-OCC), nodes enter only through the tables (IM4). "
                        "Not decided: that primes form a partition, stay on their vtree side, that no smaller equivalent "
-                       "exists — semantic facts about run-time element lists. Added: the hand-written Ord of BinarySDD/SddOr/SddAnd (the sort key of unique_or) pairs self.F with other.F for exactly the structural fields (HE ord-fields); only canonicalize implementations and and_indep may call unique_or, which neither trims nor compresses (RN3 unique_or-caller).",
+                       "exists — semantic facts about run-time element lists. Added: the hand-written Ord of BinarySDD/SddOr/SddAnd (the sort key of unique_or) pairs self.F with other.F for exactly the structural fields (HE ord-fields); only canonicalize implementations and and_indep may call unique_or, which neither trims nor compresses (RN3 unique_or-caller). Added: WC sdd-node — SDD decision nodes are built (unique_bdd / unique_or / canonicalize) only by the four and_* cases and condition, or by private helpers called only from those: they are what establishes that primes live under the left and subs under the right child of the node's vtree position; the constructors intern whatever they are handed.",
     },
     "C05": {
         "level": "other",
